@@ -403,7 +403,8 @@ static int vi_prefix(void)
 	int c = vi_read();
 	if ((c >= '1' && c <= '9')) {
 		while (isdigit(c)) {
-			n = n * 10 + c - '0';
+			if (n < 100000000)	/* larger counts stay below 10^9 */
+				n = n * 10 + c - '0';
 			c = vi_read();
 		}
 	}
@@ -514,9 +515,16 @@ static int vi_search(int cmd, int cnt, int *row, int *off)
 }
 
 /* read a line motion */
+/* the count of a motion: the product of the two prefixes, below 10^9 */
+static int vi_count(void)
+{
+	long long cnt = (long long) (vi_arg1 ? vi_arg1 : 1) * (vi_arg2 ? vi_arg2 : 1);
+	return cnt < 999999999 ? cnt : 999999999;
+}
+
 static int vi_motionln(int *row, int cmd)
 {
-	int cnt = (vi_arg1 ? vi_arg1 : 1) * (vi_arg2 ? vi_arg2 : 1);
+	int cnt = vi_count();
 	int c = vi_read();
 	int mark, mark_row, mark_off;
 	switch (c) {
@@ -600,7 +608,7 @@ static int vi_curword(struct lbuf *lb, char *dst, int len, int row, int off, cha
 static int vi_motion(int *row, int *off)
 {
 	char cw[120], kw[128];
-	int cnt = (vi_arg1 ? vi_arg1 : 1) * (vi_arg2 ? vi_arg2 : 1);
+	int cnt = vi_count();
 	char *ln = lbuf_get(xb, *row);
 	int dir = dir_context(ln ? ln : "");
 	int mark, mark_row, mark_off;
